@@ -238,5 +238,7 @@ def run(repo: Repo, tier: str) -> Report:
     sg = [st for st in ast.walk(m) if isinstance(st, ast.Assign) and ast.unparse(st.targets[0]) == "ds_out['sgrid']"]
     rep.ob("R-FORMULA", AFILE, "WhittakerSmoother.whitswcv", "sgrid = log10(reported lambda) stored as float32", len(sg) == 1 and
            norm_stmt(sg[0].value) == "np.log10(sgrid).astype('float32')", f"{[norm_stmt(s_) for s_ in sg]}", sg[0] if sg else "sgrid")
+    from ..rules import r_truthy
+    r_truthy(rep, repo, "WhittakerSmoother", "whitswcv", ["nodata"], "0 is a legitimate nodata value (it is the one the test-suite uses); a truth test silently replaces or drops it")
     rep.floor("C05 obligations", len(rep.obls), 70)
     return rep
